@@ -1,8 +1,324 @@
+import Martian.Dataflow
+import Martian.Resolver
 import Driver.Util
 
-/-! Line-protocol handler for property C01 (stub: replaced when the model exists). -/
-namespace Driver.C01
+/-!
+Line-protocol handler for property C01.
 
-def handle (_op : String) (_args : List String) : Option String := none
+  C01.check <program> <observations>   → `ok <instances> <jobs>` or
+       `diff` followed by up to 8 records `class|where|param|expected|observed`
+       (TAB separated records; fields separated by U+001F)
+  C01.den   <program> <observations>   → den's top outputs and instance args (debug)
+
+S-expression encoding (names raw, keys / scalar texts hex with prefix `x`):
+  prog  = (prog (structs (s NAME P*)*) (callables C*) (top CALL))
+  P     = (p NAME BASE MAPDIM ARRDIM)
+  C     = (stage NAME (ins P*) (outs P*)) | (pipe NAME (ins P*) (outs P*) (calls CALL*) (ret (r NAME EXP)*))
+  CALL  = (call ID CALLEE 0|1 (binds (b PARAM 0|1 EXP)*) (dis) | (dis 0|1 EXP))
+  EXP   = (lit JV) | (arr EXP*) | (map (kv XKEY EXP)*) | (st (kv XKEY EXP)*) | (self PARAM NAME*) | (ref CALL NAME*)
+  JV    = n | (a XTEXT) | (l JV*) | (o (kv XKEY JV)*)
+  obs   = (obs (outs (inst KEY JV)*) (jobs JOB*) (joins JOIN*) (top JV) (skip NAME*))
+  KEY   = (path NAME*) (forks (f CALLID (i N) | (k XKEY))*)
+  JOB   = (job XJOBKEY stage KEY JVargs) | (job XJOBKEY chunk KEY JVargs JVchunkdef)
+  JOIN  = (join XJOBKEY JVobsChunkDefs (l JVdef*) JVobsChunkOuts (l JVouts*))
+-/
+namespace Driver.C01
+open Martian.Dataflow Martian.Resolver Driver
+
+inductive SX where
+  | a (s : String)
+  | l (xs : List SX)
+deriving Inhabited
+
+/-- tokens: "(" ")" and atoms -/
+partial def tokens (cs : List Char) (cur : List Char) (acc : Array String) : Array String :=
+  let flush (acc : Array String) := if cur.isEmpty then acc else acc.push (String.ofList cur.reverse)
+  match cs with
+  | [] => flush acc
+  | c :: r =>
+    if c == '(' then tokens r [] ((flush acc).push "(")
+    else if c == ')' then tokens r [] ((flush acc).push ")")
+    else if c == ' ' then tokens r [] (flush acc)
+    else tokens r (c :: cur) acc
+
+/-- parse with an explicit stack of partially built lists -/
+partial def parseToks (ts : List String) (stack : List (Array SX)) : Option SX :=
+  match ts with
+  | [] =>
+    match stack with
+    | [top] => if top.size == 1 then some top[0]! else none
+    | _ => none
+  | t :: r =>
+    if t == "(" then parseToks r (#[] :: stack)
+    else if t == ")" then
+      match stack with
+      | cur :: parent :: rest => parseToks r (parent.push (.l cur.toList) :: rest)
+      | _ => none
+    else
+      match stack with
+      | cur :: rest => parseToks r (cur.push (.a t) :: rest)
+      | [] => none
+
+def parseSX (s : String) : Option SX :=
+  parseToks (tokens s.toList [] #[]).toList [#[]]
+
+def unhexStr (s : String) : Option String :=
+  match s.toList with
+  | 'x' :: r =>
+    match bytesOfHexAux r [] with
+    | some bs => String.fromUTF8? (ByteArray.mk bs.toArray)
+    | none => none
+  | _ => none
+
+partial def pJ : SX → Option J
+  | .a "n" => some .null
+  | .a "d" => some .dnull
+  | .l [.a "a", .a h] => do pure (.atom (← unhexStr h))
+  | .l (.a "l" :: xs) => do pure (.arr (← xs.mapM pJ))
+  | .l (.a "o" :: kvs) => do
+    let fs ← kvs.mapM fun kv =>
+      match kv with
+      | .l [.a "kv", .a k, v] => do pure ((← unhexStr k), (← pJ v))
+      | _ => none
+    pure (.obj fs)
+  | _ => none
+
+def pParam : SX → Option Param
+  | .l [.a "p", .a n, .a b, .a m, .a d] => do pure ⟨n, ⟨b, (← m.toNat?), (← d.toNat?)⟩⟩
+  | _ => none
+
+def names (xs : List SX) : Option (List String) :=
+  xs.mapM fun x => match x with | .a s => some s | _ => none
+
+partial def pExp : SX → Option Exp
+  | .l [.a "lit", j] => do pure (.lit (← pJ j))
+  | .l (.a "arr" :: xs) => do pure (.arr (← xs.mapM pExp))
+  | .l (.a "map" :: kvs) => do pure (.map (← kvs.mapM pKV))
+  | .l (.a "st" :: kvs) => do pure (.struct (← kvs.mapM pKV))
+  | .l (.a "self" :: .a p :: path) => do pure (.self p (← names path))
+  | .l (.a "ref" :: .a c :: path) => do pure (.ref c (← names path))
+  | _ => none
+where
+  pKV : SX → Option (String × Exp)
+    | .l [.a "kv", .a k, e] => do pure ((← unhexStr k), (← pExp e))
+    | _ => none
+
+def pBool : SX → Option Bool
+  | .a "0" => some false
+  | .a "1" => some true
+  | _ => none
+
+def pCall : SX → Option Call
+  | .l [.a "call", .a id, .a callee, m, .l (.a "binds" :: bs), .l (.a "dis" :: dis)] => do
+    let binds ← bs.mapM fun b =>
+      match b with
+      | .l [.a "b", .a p, s, e] => do pure (⟨p, (← pBool s), (← pExp e)⟩ : Bind)
+      | _ => none
+    let d ← match dis with
+      | [] => some none
+      | [s, e] => do pure (some ((← pBool s), (← pExp e)))
+      | _ => none
+    pure ⟨id, callee, (← pBool m), binds, d⟩
+  | _ => none
+
+def pCallable : SX → Option (String × Callable)
+  | .l [.a "stage", .a n, .l (.a "ins" :: ins), .l (.a "outs" :: outs)] => do
+    pure (n, .stage (← ins.mapM pParam) (← outs.mapM pParam))
+  | .l [.a "pipe", .a n, .l (.a "ins" :: ins), .l (.a "outs" :: outs), .l (.a "calls" :: cs),
+        .l (.a "ret" :: rs)] => do
+    let ret ← rs.mapM fun r =>
+      match r with
+      | .l [.a "r", .a p, e] => do pure (p, (← pExp e))
+      | _ => none
+    pure (n, .pipeline (← ins.mapM pParam) (← outs.mapM pParam) (← cs.mapM pCall) ret)
+  | _ => none
+
+def pProg : SX → Option Program
+  | .l [.a "prog", .l (.a "structs" :: ss), .l (.a "callables" :: cs), .l [.a "top", t]] => do
+    let structs ← ss.mapM fun s =>
+      match s with
+      | .l (.a "s" :: .a n :: ps) => do pure (n, (← ps.mapM pParam))
+      | _ => none
+    pure ⟨structs, (← cs.mapM pCallable), (← pCall t)⟩
+  | _ => none
+
+def pKey : SX → SX → Option InstKey
+  | .l (.a "path" :: ps), .l (.a "forks" :: fs) => do
+    let forks ← fs.mapM fun f =>
+      match f with
+      | .l [.a "f", .a c, .l [.a "i", .a n]] => do pure (c, Idx.i (← n.toNat?))
+      | .l [.a "f", .a c, .l [.a "k", .a k]] => do pure (c, Idx.k (← unhexStr k))
+      | _ => none
+    pure ⟨(← names ps), forks⟩
+  | _, _ => none
+
+structure Job where
+  key : String
+  chunk : Bool
+  inst : InstKey
+  args : J
+  chunkDef : J
+
+structure Join where
+  key : String
+  obsDefs : J
+  defs : List J
+  obsOuts : J
+  outs : List J
+
+structure Obs where
+  outs : List (InstKey × J)
+  jobs : List Job
+  joins : List Join
+  top : J
+  /-- top-level outputs not compared (file-typed: rewritten by post-processing, C13) -/
+  skip : List String
+
+def pObs : SX → Option Obs
+  | .l [.a "obs", .l (.a "outs" :: os), .l (.a "jobs" :: js), .l (.a "joins" :: jns), .l [.a "top", t],
+        .l (.a "skip" :: sk)] => do
+    let outs ← os.mapM fun o =>
+      match o with
+      | .l [.a "inst", p, f, v] => do pure ((← pKey p f), (← pJ v))
+      | _ => none
+    let jobs ← js.mapM fun j =>
+      match j with
+      | .l [.a "job", .a k, .a "stage", p, f, a] => do
+        pure (⟨(← unhexStr k), false, (← pKey p f), (← pJ a), .null⟩ : Job)
+      | .l [.a "job", .a k, .a "chunk", p, f, a, d] => do
+        pure (⟨(← unhexStr k), true, (← pKey p f), (← pJ a), (← pJ d)⟩ : Job)
+      | _ => none
+    let joins ← jns.mapM fun j =>
+      match j with
+      | .l [.a "join", .a k, od, .l (.a "l" :: ds), oo, .l (.a "l" :: os)] => do
+        pure (⟨(← unhexStr k), (← pJ od), (← ds.mapM pJ), (← pJ oo), (← os.mapM pJ)⟩ : Join)
+      | _ => none
+    pure ⟨outs, jobs, joins, (← pJ t), (← names sk)⟩
+  | _ => none
+
+/-! rendering -/
+
+def quote (s : String) : String :=
+  "\"" ++ String.join (s.toList.map fun c =>
+    if c == '"' then "\\\"" else if c == '\\' then "\\\\" else String.singleton c) ++ "\""
+
+partial def render : J → String
+  | .null => "null"
+  | .dnull => "null/*disabled-or-empty*/"
+  | .atom s => s
+  | .arr xs => "[" ++ ",".intercalate (xs.map render) ++ "]"
+  | .obj kvs => "{" ++ ",".intercalate (kvs.map fun kv => quote kv.1 ++ ":" ++ render kv.2) ++ "}"
+
+def renderKey (k : InstKey) : String :=
+  ".".intercalate k.path ++ "[" ++ ",".intercalate (k.forks.map fun f =>
+    f.1 ++ "=" ++ (match f.2 with | .i n => toString n | .k s => quote s | .none => "-")) ++ "]"
+
+/-- The run-time does not fork a stage over an enclosing mapped call when none of
+its inputs depends on the split value: one observed fork then stands for every
+index.  An observed fork (its parts = a sub-list of the enclosing mapped calls)
+*covers* a den instance when the paths agree and its parts are a sub-list of the
+instance's fork list. -/
+def subList : List (String × Idx) → List (String × Idx) → Bool
+  | [], _ => true
+  | _ :: _, [] => false
+  | a :: as, b :: bs => if a == b then subList as bs else subList (a :: as) bs
+
+def covers (obs inst : InstKey) : Bool :=
+  obs.path == inst.path && subList obs.forks inst.forks
+
+def oracleOf (outs : List (InstKey × J)) : Oracle := fun k =>
+  (outs.find? fun o => covers o.1 k).map (·.2)
+
+def fieldsOf : J → List (String × J)
+  | .obj kvs => kvs
+  | _ => []
+
+def sep : String := String.singleton (Char.ofNat 31)
+
+def mkDiff (cls wher param : String) (e o : J) : String :=
+  sep.intercalate [cls, wher, param, render e, render o]
+
+/-- first differing parameter of an argument record -/
+def diffRecord (cls wher : String) (expected observed : List (String × J)) : Option String :=
+  match expected.find? (fun e =>
+      match observed.lookup e.1 with
+      | some o => !(e.2.matches o)
+      | none => !(e.2.nullish)) with
+  | some e => some (mkDiff cls wher e.1 e.2 ((observed.lookup e.1).getD .null))
+  | none =>
+    match observed.find? (fun o => (expected.lookup o.1).isNone) with
+    | some o => some (mkDiff (cls ++ "-extra-param") wher o.1 .null o.2)
+    | none => none
+
+def checkAll (P : Program) (obs : Obs) : List String × Nat :=
+  let d := den P (oracleOf obs.outs)
+  let insts := d.2
+  let jobDiffs := obs.jobs.filterMap fun j =>
+    match insts.filter (fun i => covers j.inst i.key) with
+    | [] => some (mkDiff "unexpected-instance" j.key (renderKey j.inst) .dnull j.args)
+    | is =>
+      -- every den instance this job stands for must denote the delivered arguments
+      is.findSome? fun i =>
+        let expected :=
+          if j.chunk then chunkMerge (fieldsOf i.args) (fieldsOf j.chunkDef) else fieldsOf i.args
+        diffRecord (if j.chunk then "chunk-args" else "args") j.key expected (fieldsOf j.args)
+  let missing := insts.filterMap fun i =>
+    match obs.jobs.filter (fun j => covers j.inst i.key && !j.chunk) with
+    | [] => if i.optional then none else some (mkDiff "missing-instance" (renderKey i.key) "" i.args .null)
+    | j :: js =>
+      -- all the jobs covering one instance must belong to one observed fork
+      if js.all (fun j' => j'.inst == j.inst) then none
+      else some (mkDiff "ambiguous-instance" (renderKey i.key) "" i.args .null)
+  let joinDiffs := obs.joins.flatMap fun j =>
+    (if (joinChunkDefs (j.defs.map fieldsOf)).matches j.obsDefs then []
+     else [mkDiff "chunk-defs" j.key "_chunk_defs" (joinChunkDefs (j.defs.map fieldsOf)) j.obsDefs]) ++
+    (if (joinChunkOuts j.outs).matches j.obsOuts then []
+     else [mkDiff "chunk-outs" j.key "_chunk_outs" (joinChunkOuts j.outs) j.obsOuts])
+  let topDiff := (diffRecord "top-outs" P.top.id
+      ((fieldsOf d.1).filter fun kv => !obs.skip.contains kv.1)
+      ((fieldsOf obs.top).filter fun kv => !obs.skip.contains kv.1)).toList
+  (jobDiffs ++ missing ++ joinDiffs ++ topDiff, insts.length)
+
+def handle (op : String) (args : List String) : Option String :=
+  match op, args with
+  | "check", [p, o] => do
+    let P ← pProg (← parseSX p)
+    let obs ← pObs (← parseSX o)
+    let d := den P (oracleOf obs.outs)
+    if let some bad := d.2.find? (·.undefined) then
+      return s!"skip inconsistent-split {renderKey bad.key}"
+    let (diffs, n) := checkAll P obs
+    if diffs.isEmpty then pure s!"ok {n} {obs.jobs.length}"
+    else pure ("diff\t" ++ "\t".intercalate (diffs.take 8))
+  | "den", [p, o] => do
+    let P ← pProg (← parseSX p)
+    let obs ← pObs (← parseSX o)
+    let d := den P (oracleOf obs.outs)
+    pure ("top=" ++ render d.1 ++ "\t" ++ "\t".intercalate (d.2.map fun i => renderKey i.key ++ " " ++ render i.args))
+  | "proj", [st, t, path, v] => do
+    -- st = (structs …) ; t = (p _ base m d) ; path = (path …) ; v = JV
+    let ss ← match (← parseSX st) with
+      | .l (.a "structs" :: ss) => ss.mapM fun s =>
+          match s with
+          | .l (.a "s" :: .a n :: ps) => do pure (n, (← ps.mapM pParam))
+          | _ => none
+      | _ => none
+    let ty ← pParam (← parseSX t)
+    let pth ← match (← parseSX path) with
+      | .l (.a "path" :: ps) => names ps
+      | _ => none
+    let val ← pJ (← parseSX v)
+    pure (render (projPath ss ty.ty pth val) ++ "\t" ++ render (resolvePath ss ty.ty pth val))
+  | "narrow", [st, t, v] => do
+    let ss ← match (← parseSX st) with
+      | .l (.a "structs" :: ss) => ss.mapM fun s =>
+          match s with
+          | .l (.a "s" :: .a n :: ps) => do pure (n, (← ps.mapM pParam))
+          | _ => none
+      | _ => none
+    let ty ← pParam (← parseSX t)
+    let val ← pJ (← parseSX v)
+    pure (render (narrow ss (ss.length + 2) ty.ty val))
+  | _, _ => none
 
 end Driver.C01
